@@ -10,6 +10,7 @@ mod jitter;
 mod jitter_ref;
 mod jump;
 mod isaac_ref;
+mod stream_ref;
 mod serde_pos;
 #[cfg(feature = "send_sync_obligations")]
 mod send_sync;
@@ -24,6 +25,7 @@ fn main() {
         Some("serde-positions") => serde_pos::main(),
         Some("jump") => jump::main(&args[2..]),
         Some("isaac-diff") => isaac_ref::main(&args[2..]),
+        Some("stream-diff") => stream_ref::main(&args[2..]),
         _ => {
             eprintln!("usage: rngs-replay jitter <call> <script…>");
             2
